@@ -744,16 +744,16 @@ fi
             local shortest_suffix="$prefix"
             for ((i=0; i < ${{#COMP_WORDBREAKS}}; i++)); do
                 local char="${{COMP_WORDBREAKS:$i:1}}"
-                local candidate=${{prefix##*$char}}
+                local candidate=${{prefix##*"$char"}}
                 if [[ ${{#candidate}} -lt ${{#shortest_suffix}} ]]; then
                     shortest_suffix=$candidate
                 fi
             done
             local superfluous_prefix=""
             if [[ "$shortest_suffix" != "$prefix" ]]; then
-                local superfluous_prefix=${{prefix%$shortest_suffix}}
+                local superfluous_prefix=${{prefix%"$shortest_suffix"}}
             fi
-            COMPREPLY=("${{matches[@]#$superfluous_prefix}}")
+            COMPREPLY=("${{matches[@]#"$superfluous_prefix"}}")
             break
         fi
     }}
